@@ -210,6 +210,18 @@ def render_query(case, sp=None, lang='py'):
     if q['hasgroup']:
         clauses.append(kw('GROUP BY', sp) + ' ' + ', '.join(expr(e, case, sp, lang) for e in q['group']))
     # clause order after SELECT/UPDATE is free (C08)
+    mistake = q.get('mistake', '')
+    if mistake == 'where_assign':
+        clauses = [c.replace('==', '=') if c.upper().startswith('WHERE') else c for c in clauses]
+    elif mistake == 'two_selects':
+        clauses.append('select a2')
+    elif mistake == 'bad_limit':
+        clauses = [c for c in clauses if not c.upper().startswith('LIMIT')] + ['LIMIT x1']
+        head = re.sub(r'(?i) TOP \d+', '', head)
+    elif mistake == 'unknown_except_field':
+        clauses = [(c + ', a.nosuchcolumn' if case['hasHdr'] else c + ', a') if c.upper().startswith('EXCEPT') else c for c in clauses]
+    elif mistake == 'unknown_update_field':
+        head = head + ', axyz = 1'
     order = list(range(len(clauses)))
     for i in range(len(order) - 1, 0, -1):
         j = sp.pick(list(range(i + 1)))
@@ -386,6 +398,11 @@ def run_case_py(mods, case, query_text):
     events = []
     hdrA = list(case['hdrA']) if case['hasHdr'] else None
     hdrB = list(case['hdrB']) if case['hasHdr'] else None
+    iofault = case['q'].get('iofault', '')
+    if iofault == 'hdr_len' and hdrA is not None:
+        hdrA = hdrA + ['extra']
+    if iofault == 'join_hdr_missing':
+        hdrB = None
     it = RecIterator(A, hdrA, events, 'a')
     wr = RecWriter(events, case['breakAt'], [(A, snapA), (B, snapB)])
     reg = Registry(B, hdrB, events) if case['q']['join'] != 'none' else None
